@@ -37,6 +37,13 @@ ASSUME \A M \in MAllMesh(1) : \A c \in MCells(1) \ M.R :
 ASSUME \A M \in MAllMesh(1), q \in PPermsUpTo(4) : \A c \in MCells(1) \ M.R : \A d \in {"none", "E", "N", "W", "S"} :
           MContains(q, MAddPoint(M, c, d)) <=> MOccWithPointIn(M, q, c) # {}
 
+\* the coordinate formulas proved for all N in specs/proofs/D4_Lemmas.tla (TLAPS) are the maps of D4
+ASSUME \A N \in {3, 4} : \A X \in 0..N, Y \in 0..N :
+          /\ DMap("r1", N, <<X, Y>>) = <<Y, N - X>> /\ DMap("r3", N, <<X, Y>>) = <<N - Y, X>>
+          /\ DMap("r2", N, <<X, Y>>) = <<N - X, N - Y>> /\ DMap("rev", N, <<X, Y>>) = <<N - X, Y>>
+          /\ DMap("comp", N, <<X, Y>>) = <<X, N - Y>> /\ DMap("inv", N, <<X, Y>>) = <<Y, X>>
+          /\ DMap("anti", N, <<X, Y>>) = <<N - Y, N - X>>
+
 VARIABLE dummy
 Init == dummy = 0
 Next == UNCHANGED dummy
